@@ -457,6 +457,16 @@ fn group_commit(seed: u64) -> Vec<Fail> {
             if n != total_ops {
                 fails.push(("c05:acknowledged-write-missing-or-duplicated".into(), format!("{total_ops} distinct keys were acknowledged ({queued} writers queued behind a parked leader, value sizes {:?}), the database shows {n}", expect.values().map(|v| v.0).collect::<Vec<_>>())));
             }
+            // every follower's batch is visible as a whole or not at all (C06): with all writers
+            // acknowledged, each batch must be wholly visible
+            for i in 0..nf {
+                let want = expect.keys().filter(|k| k.starts_with(format!("g-f{i}-").as_bytes())).count();
+                let seen = got.iter().filter(|(k, _)| k.starts_with(format!("g-f{i}-").as_bytes())).count();
+                if seen != 0 && seen != want {
+                    fails.push(("c06:reader-sees-part-of-a-batch".into(), format!("after a group commit ({queued} writers queued behind a parked leader) a scan sees {seen} of the {want} operations of the batch of writer {i}: part of an acknowledged batch is visible, the rest is not")));
+                    break;
+                }
+            }
             for (k, v) in got.iter() {
                 if let Some((sz, byte)) = expect.get(k) {
                     if v.len() != *sz || v.iter().any(|b| b != byte) {
